@@ -427,13 +427,17 @@ def xquotes(node, also_plain=True):
     return res
 
 
-def msum(prog, name_rx, stop=None, crate=None):
-    """[(body name, return-value summary text or None, [effect texts])] of the bodies matching name_rx (py/mirsum.py)"""
+def msum(prog, name_rx, stop=None, crate=None, closures=False):
+    """[(body name, return-value summary text or None, [effect texts])] of the bodies matching name_rx (py/mirsum.py);
+    closures=True: closure values are shown by what their body does with the captured values"""
     import mirsum
     out = []
     for b in prog.bodies_matching(name_rx, crate):
         eff = []
         t = mirsum.summary(prog, b, stop=stop, effects=eff)
+        if closures and t is not None:
+            t = mirsum.inline_closures(prog, b, t)
+            eff = [mirsum.inline_closures(prog, b, e) for e in eff]
         out.append((b.name, mirsum.fmt(t) if t is not None else None, [mirsum.fmt(e) for e in eff]))
     return out
 
